@@ -1,6 +1,7 @@
 package main
 
 import (
+	"go/types"
 	"go/token"
 	"sort"
 	"strings"
@@ -354,4 +355,121 @@ func c14lookup3(c *Ctx, r *Result) {
 	r.Check(eq(mixRot, []int64{4, 6, 8, 16, 19, 4}), "C14.7", name+"#mix-rotations", c.Pos(fn.Pos()), "block mix rotates by "+str(mixRot)+" (lookup3: 4,6,8,16,19,4)")
 	r.Check(eq(finRot, []int64{14, 11, 25, 16, 4, 14, 24}), "C14.7", name+"#final-rotations", c.Pos(fn.Pos()), "final mix rotates by "+str(finRot)+" (lookup3: 14,11,25,16,4,14,24)")
 	r.Floor("C14.7", 5)
+}
+
+// reaches: does the operand graph of v (arithmetic, conversions, call arguments, phis, extracts) contain root?
+func reaches(v, root ssa.Value, d int, seen map[ssa.Value]bool) bool {
+	if v == root {
+		return true
+	}
+	if v == nil || d > 12 || seen[v] {
+		return false
+	}
+	seen[v] = true
+	switch x := v.(type) {
+	case *ssa.BinOp:
+		return reaches(x.X, root, d+1, seen) || reaches(x.Y, root, d+1, seen)
+	case *ssa.Convert:
+		return reaches(x.X, root, d+1, seen)
+	case *ssa.ChangeType:
+		return reaches(x.X, root, d+1, seen)
+	case *ssa.UnOp:
+		return reaches(x.X, root, d+1, seen)
+	case *ssa.Extract:
+		return reaches(x.Tuple, root, d+1, seen)
+	case *ssa.Phi:
+		for _, e := range x.Edges {
+			if reaches(e, root, d+1, seen) {
+				return true
+			}
+		}
+	case *ssa.Call:
+		for _, a := range x.Call.Args {
+			if reaches(a, root, d+1, seen) {
+				return true
+			}
+		}
+	}
+	return false
+}
+
+// derivedFieldsFollow: within the struct type `typeKey` (e.g. "structures.WritableBTreeV2"): a field F2 that some function
+// sets to a value computed from the very value it stores into field F1 is a cache of F1; every other function that stores
+// F1 must then store F2 too.
+func (c *Ctx) derivedFieldsFollow(r *Result, rule, typeKey string) {
+	type pair struct{ f1, f2 string }
+	pairs := map[pair]string{}
+	storesByFn := map[*ssa.Function][]FieldStore{}
+	for _, fn := range c.LibFuncs() {
+		for _, fs := range c.DirectFieldStores(fn) {
+			if fs.Fn == fn && strings.HasPrefix(fs.Key, typeKey+".") {
+				storesByFn[fn] = append(storesByFn[fn], fs)
+			}
+		}
+	}
+	for fn, sts := range storesByFn {
+		for _, a := range sts {
+			if _, isC := a.Val.(*ssa.Const); isC || a.Val == nil {
+				continue
+			}
+			for _, b := range sts {
+				if a.Key == b.Key || b.Val == nil || b.Val == a.Val {
+					continue
+				}
+				if _, isC := b.Val.(*ssa.Const); isC {
+					continue
+				}
+				// b derived from a: a.Val occurs strictly inside b.Val's computation (through at least one call or operation)
+				if reaches(b.Val, a.Val, 0, map[ssa.Value]bool{}) && isScalar(a.Val.Type()) && isScalar(b.Val.Type()) {
+					pairs[pair{a.Key, b.Key}] = c.Name(fn)
+				}
+			}
+		}
+	}
+	n := 0
+	var keys []pair
+	for p := range pairs {
+		keys = append(keys, p)
+	}
+	sort.Slice(keys, func(i, j int) bool { return keys[i].f1+keys[i].f2 < keys[j].f1+keys[j].f2 })
+	for _, p := range keys {
+		var fns []*ssa.Function
+		for fn := range storesByFn {
+			fns = append(fns, fn)
+		}
+		sort.Slice(fns, func(i, j int) bool { return c.Name(fns[i]) < c.Name(fns[j]) })
+		for _, fn := range fns {
+			has1, has2 := false, false
+			var at ssa.Instruction
+			for _, fs := range storesByFn[fn] {
+				if fs.Key == p.f1 {
+					has1, at = true, fs.In
+				}
+				if fs.Key == p.f2 {
+					has2 = true
+				}
+			}
+			if !has1 {
+				continue
+			}
+			n++
+			r.Check(has2, rule, c.Name(fn)+"#"+lastSeg(p.f2)+"-follows-"+lastSeg(p.f1), c.InstrPos(at), lastSeg(p.f2)+" is computed from "+lastSeg(p.f1)+" in "+pairs[p]+"; a function that changes "+lastSeg(p.f1)+" must refresh it (otherwise the cached value describes the old "+lastSeg(p.f1)+")")
+		}
+	}
+	if n == 0 {
+		r.Hold(rule, typeKey+"#no-derived-fields", "", "no field of "+typeKey+" caches a value computed from another field")
+	}
+}
+
+func isScalar(t types.Type) bool {
+	_, ok := t.Underlying().(*types.Basic)
+	return ok
+}
+
+func init() {
+	reg := registry["C14"]
+	reg.Meta.Rules["C14.8"] = "a cached capacity follows the node size: if a field of WritableBTreeV2 is computed from the value stored into another field (e.g. a leaf capacity from nodeSize), every function that stores the source field also refreshes the derived one (LoadFromFile adopts the node size of the file)"
+	reg.Rules = append(reg.Rules, func(c *Ctx, r *Result) {
+		c.derivedFieldsFollow(r, "C14.8", "structures.WritableBTreeV2")
+	})
 }
